@@ -26,6 +26,7 @@ use kanidmd_lib::event::ReviveRecycledEvent;
 use kanidmd_lib::prelude::*;
 use kanidmd_lib::schema::Schema;
 use kanidmd_lib::value::{AuthType, Session, SessionScope, SessionState};
+use kanidmd_lib::valueset::ValueSet;
 use kanidmd_lib::verif_hooks::c13 as hook;
 use kanidmd_lib::verif_hooks::c36 as hook36;
 use kanidmd_lib::{filter, filter_all, filter_rec};
@@ -454,6 +455,8 @@ fn c_answers(ctx: &mut Ctx, a: &Answers) -> String {
     clist_s(&per)
 }
 
+static EMPTY_SETS: std::sync::atomic::AtomicU64 = std::sync::atomic::AtomicU64::new(0);
+
 /// Entries created by the histories are compared completely (attributes and change state); built-in
 /// entries are re-asserted by every server start (new change ids, LastModifiedCid), so for those the
 /// attribute comparison of `Entry::eq` is used. (The byte-exact comparison of every stored entry is the
@@ -467,10 +470,32 @@ fn same_entries(a: &Answers, b: &Answers) -> bool {
         }
         for (e, f) in x.iter().zip(y.iter()) {
             let ours = (e.get_uuid().as_u128() >> 96) == 0xc13c_13c1u128;
-            let same = e.as_ref() == f.as_ref() && (!ours || e.get_changestate() == f.get_changestate());
+            // The source answers come from the server's entry cache, where an attribute whose last value
+            // was trimmed (e.g. all login sessions of a recycled account) lingers as an EMPTY value set;
+            // the stored row - which is what a backup holds - has no such attribute. Empty = absent here.
+            let attrs_same = {
+                let skip = |a: &Attribute| *a == Attribute::LastModifiedCid || *a == Attribute::CreatedAtCid;
+                let l: BTreeMap<&Attribute, &ValueSet> = e.get_ava_iter().filter(|(a, v)| !skip(a) && v.len() > 0).collect();
+                let r: BTreeMap<&Attribute, &ValueSet> = f.get_ava_iter().filter(|(a, v)| !skip(a) && v.len() > 0).collect();
+                l.len() == r.len() && l.iter().all(|(a, v)| r.get(*a).map(|w| *v == *w).unwrap_or(false))
+            };
+            if attrs_same && e.as_ref() != f.as_ref() {
+                EMPTY_SETS.fetch_add(1, std::sync::atomic::Ordering::Relaxed);
+            }
+            let same = attrs_same && (!ours || e.get_changestate() == f.get_changestate());
             if !same {
                 if ok {
-                    eprintln!("DIFF query#{} uuid={} ours={}", qi, e.get_uuid(), ours);
+                    eprintln!(
+                        "DIFF query#{} uuid={} ours={} attrs_eq={} changestate_eq={}",
+                        qi,
+                        e.get_uuid(),
+                        ours,
+                        e.as_ref() == f.as_ref(),
+                        e.get_changestate() == f.get_changestate()
+                    );
+                    if std::env::var("C13_DEBUG").is_ok() {
+                        eprintln!("DIFF-BEFORE {:?}\nDIFF-AFTER  {:?}", e, f);
+                    }
                 }
                 ok = false;
             }
@@ -854,5 +879,6 @@ an anchor without entries (for CRound); a refused backup (CGate); a restored dat
         prev_plain = Some(plain);
     }
     let _ = std::fs::remove_dir_all(&dir);
+    sink.add_stat("answered_entries_with_cached_empty_value_set", EMPTY_SETS.load(std::sync::atomic::Ordering::Relaxed));
     sink.finish();
 }
